@@ -248,7 +248,75 @@ mod verif_app_wit {
                 assert_eq!(responses.len(), n);
                 for r in responses.iter() { assert!(records.iter().any(|x| x.get("request") == r.get("request") && x.get("error").is_some() == r.get("error").is_some()), "the record of response {} is in the file", r["request"]); }
             }
+            // a batch in which EVERY query is rejected during input processing: still one record per response
+            let rejected_file = dir.join(format!("rejected_{}.json", case));
+            app.response_output_policy = ResponseOutputPolicy::File { filename: rejected_file.to_str().unwrap().to_string(), format: ResponseOutputFormat::Json { newline_delimited: true }, file_flush_rate: None };
+            let rejected = vec![json!(1), json!("two"), json!([3])];
+            let rr = app.run(rejected.clone(), None).expect("user-level errors are responses, not a failed run");
+            assert_eq!(rr.len(), rejected.len(), "rejected queries are answered (and kept in memory under both persistence policies)");
+            let rtext = std::fs::read_to_string(&rejected_file).unwrap();
+            let rrecords: Vec<Value> = rtext.lines().filter(|l| !l.trim().is_empty()).map(|l| serde_json::from_str(l).expect("one complete JSON record per line")).collect();
+            assert_eq!(rrecords.len(), rejected.len(), "parallelism {} keep {}: a batch of rejected queries only: one record per response in the file, found {} for {}", parallelism, keep, rrecords.len(), rejected.len());
         } }
+        let _ = std::fs::remove_dir_all(&dir);
+    }
+
+    fn load_app_with_outputs(tag: &str, algorithm: &str, plugins: &str) -> (CompassApp, PathBuf) {
+        let base = PathBuf::from(env!("CARGO_MANIFEST_DIR")).join("src").join("app").join("compass").join("test").join("speeds_test");
+        let fx = |n: &str| base.join(n).to_str().unwrap().to_string();
+        let dir = std::env::temp_dir().join(format!("verif_c20_app_{}_{}", tag, std::process::id()));
+        std::fs::create_dir_all(&dir).unwrap();
+        let uuid_file = dir.join("uuids.txt");
+        std::fs::write(&uuid_file, "uuid-a\nuuid-b\nuuid-c\n").unwrap();
+        let plugins = plugins.replace("{UUID}", uuid_file.to_str().unwrap()).replace("{GEOM}", &fx("edge_geometries.txt"));
+        let toml = format!("parallelism = 1\n[graph]\nedge_list_input_file = \"{}\"\nvertex_list_input_file = \"{}\"\nverbose = false\n{}\n[traversal]\ntype = \"speed_table\"\nspeed_table_input_file = \"{}\"\nspeed_unit = \"kilometers_per_hour\"\noutput_time_unit = \"hours\"\n[access]\ntype = \"no_access_model\"\n[cost]\ncost_aggregation = \"sum\"\n[cost.weights]\ndistance = 0\ntime = 1\n[cost.vehicle_rates.time]\ntype = \"raw\"\n[cost.vehicle_rates.distance]\ntype = \"raw\"\n[plugin]\ninput_plugins = []\noutput_plugins = [\n{}\n]\n",
+            fx("test_edges.csv"), fx("test_vertices.csv"), algorithm, fx("test_edge_speeds.csv"), plugins);
+        let conf = dir.join("conf.toml");
+        std::fs::write(&conf, toml).unwrap();
+        (CompassApp::try_from(conf.as_path()).unwrap(), dir)
+    }
+    fn tree_entries(tree: &Value) -> usize {
+        let arr = tree.as_array().unwrap_or_else(|| panic!("the tree output is not an array: {}", tree));
+        if !arr.is_empty() && arr.iter().all(|x| x.is_array()) { arr.iter().map(|t| t.as_array().unwrap().len()).sum() } else { arr.len() }
+    }
+    fn route_edges(route: &Value) -> usize {
+        match route {
+            Value::Null => 0,
+            Value::Array(routes) => routes.iter().map(|r| r["path"].as_array().unwrap().len()).sum(),
+            one => one["path"].as_array().unwrap().len(),
+        }
+    }
+
+    /// C20: the outputs of the traversal, summary and identifier plugins describe the SAME result: a tree output is there whenever a tree format is configured (one entry
+    /// per branch, also for a query without destination), the summary counters count the routes' edges and ALL trees' branches, and no destination identifier is
+    /// attached when no destination vertex was matched
+    #[test]
+    fn c20_wit_outputs_of_all_plugins_describe_the_same_result() {
+        let plugins = r#"{ type = "summary" }, { type = "traversal", route = "edge_id", tree = "edge_id", geometry_input_file = "{GEOM}" }"#;
+        for (tag, algorithm) in [("astar", ""), ("ksp", "[algorithm]\ntype = \"ksp_single_via\"\nk = 2\nunderlying = { type = \"a*\" }\n")] {
+            let (app, dir) = load_app_with_outputs(tag, algorithm, plugins);
+            for q in [json!({"origin_vertex": 0, "destination_vertex": 2}), json!({"origin_vertex": 0}), json!({"origin_vertex": 1, "destination_vertex": 2})] {
+                let r = app.run(vec![q.clone()], None).unwrap().remove(0);
+                if r.get("error").is_some() { continue; }   // (a k-shortest-path search needs a destination)
+                let tree = r.get("tree").unwrap_or_else(|| panic!("{}: a tree format is configured, the response to {} must carry a tree: {}", tag, q, r));
+                assert!(r.get("route").is_some(), "{}: a route format is configured, the response to {} must carry the route key", tag, q);
+                assert_eq!(r["tree_size_count"].as_u64().unwrap() as usize, tree_entries(tree), "{}: query {}: tree_size_count counts the branches of ALL trees: {}", tag, q, tree);
+                assert_eq!(r["route_edges"].as_u64().unwrap() as usize, route_edges(&r["route"]), "{}: query {}: route_edges counts the edges of the routes", tag, q);
+                if q.get("destination_vertex").is_none() {
+                    assert_eq!(r["route"], Value::Null, "no destination: no route");
+                    assert!(tree_entries(tree) > 0, "a tree search from vertex 0 reaches other vertices");
+                }
+            }
+            let _ = std::fs::remove_dir_all(&dir);
+        }
+        // identifiers: the matched vertices' rows; without a matched destination no destination identifier is attached
+        let (app, dir) = load_app_with_outputs("uuid", "", r#"{ type = "uuid", uuid_input_file = "{UUID}" }"#);
+        let r = app.run(vec![json!({"origin_vertex": 1, "destination_vertex": 2})], None).unwrap().remove(0);
+        assert!(r.get("error").is_none(), "unexpected error: {}", r);
+        assert_eq!(r["origin_vertex_uuid"], json!("uuid-b"));
+        assert_eq!(r["destination_vertex_uuid"], json!("uuid-c"));
+        let r = app.run(vec![json!({"origin_vertex": 1})], None).unwrap().remove(0);
+        assert!(r.get("destination_vertex_uuid").is_none(), "no destination vertex was matched: no destination identifier may be attached, found {}", r);
         let _ = std::fs::remove_dir_all(&dir);
     }
 }
